@@ -198,6 +198,8 @@ class Run(object):
                 "call_sites_classified": n_calls,
                 "call_sites_by_kind": kinds,
                 "helpers_inlined": dict((m.name, sorted(x for v in m.inlined.values() for x in v)) for m in self.repo.modules.values() if m.inlined),
+                "renamed_methods_mapped_back": dict((m.name, dict(("%s.%s" % (c, n), o) for c, mp in m.unrenamed.items() for n, o in mp.items()))
+                                                    for m in self.repo.modules.values() if getattr(m, "unrenamed", None)),
             })
         except Exception:
             pass
